@@ -133,4 +133,48 @@ SameAX(a, b) ==
   /\ \A i \in 1..Len(a.bundles) :
         a.bundles[i].id = b.bundles[i].id /\ a.bundles[i].ns = b.bundles[i].ns
         /\ BagEqSeq(a.bundles[i].recs, b.bundles[i].recs)
+(* ---- reading AX as the PROV-XML note says (for the model-level check XmlDenotes) ---- *)
+(* the same rules as SpecXml.XValue / XRecord, on the abstract form                      *)
+AXScope(ns) == [p \in {e[1] : e \in ns} |-> (CHOOSE e \in ns : e[1] = p)[2]]
+AXName(n, sc) == IF n = NoneN THEN NONE ELSE IF n[1].p \in DOMAIN sc THEN sc[n[1].p] \o n[1].l ELSE NONE
+AXStr(text) ==      \* element text read as a string
+  CASE text.k = "none" -> [t |-> "str", v |-> "e"]
+    [] text.k = "iso"  -> [t |-> "isostr", v |-> text.v]       \* a string that happens to look like a time
+    [] text.k \in {"tok", "num", "bool"} -> [t |-> "str", v |-> text.v]
+    [] OTHER -> Bad("not a string payload")
+AXVal(kid, sc) ==
+  LET tx == kid.text
+      isTime == kid.tag[1] = ProvNS /\ Len(kid.tag[2]) = 1 /\ kid.tag[2][1] \in JTimeAttrs
+  IN
+  IF kid.ref # NoneN THEN [t |-> "qn", u |-> AXName(kid.ref, sc)]
+  ELSE IF kid.lang # "" THEN [t |-> "lang", v |-> IF tx.k = "none" THEN "e" ELSE tx.v, lang |-> kid.lang]
+  ELSE IF kid.xt # NoneN THEN
+       LET dt == AXName(kid.xt, sc)
+           x  == XsdName(dt)
+       IN IF dt = NONE THEN Bad("unbound xsi:type")
+          ELSE IF x = "QName" THEN [t |-> "qn", u |-> IF tx.k = "name" THEN AXName(N1(tx.p, tx.l), sc) ELSE NONE]
+          ELSE IF x = "string" THEN AXStr(tx)
+          ELSE IF x \in JIntTypes THEN (IF tx.k = "num" THEN [t |-> "int", v |-> tx.v] ELSE Bad("int"))
+          ELSE IF x \in {"double", "float", "decimal"} THEN (IF tx.k = "num" THEN [t |-> "float", v |-> tx.v] ELSE Bad("float"))
+          ELSE IF x = "boolean" THEN (IF tx.k = "bool" THEN [t |-> "bool", v |-> tx.v] ELSE Bad("bool"))
+          ELSE IF x = "dateTime" THEN (IF tx.k = "iso" THEN [t |-> "dt", v |-> tx.v] ELSE Bad("dateTime"))
+          ELSE IF x = "anyURI" THEN (IF tx.k = "uri" THEN [t |-> "uri", u |-> tx.u] ELSE Bad("anyURI"))
+          ELSE [t |-> "lit", v |-> IF tx.k = "none" THEN "e" ELSE tx.v, dt |-> CanonDT(dt)]
+  ELSE IF isTime THEN (IF tx.k = "iso" THEN [t |-> "dt", v |-> tx.v] ELSE Bad("time"))
+  ELSE AXStr(tx)
+AXRec(r, sc) ==
+  [k |-> XKind[r.name],
+   id |-> AXName(r.id, sc),
+   attrs |-> {[a |-> k.tag[1] \o k.tag[2], v |-> AXVal(k, sc)] : k \in r.kids}
+             \cup (IF r.name \in DOMAIN XSubtype
+                   THEN {[a |-> <<"prov#", "type">>, v |-> [t |-> "qn", u |-> <<"prov#", XSubtype[r.name]>>]]}
+                   ELSE {})]
+ReadAX(ax) ==
+  LET top == AXScope(ax.ns) IN
+  [recs |-> [i \in 1..Len(ax.recs) |-> AXRec(ax.recs[i], top)],
+   bundles |-> [i \in 1..Len(ax.bundles) |->
+                  LET sc == AXScope(ax.bundles[i].ns) IN
+                  [id |-> AXName(ax.bundles[i].id, sc),
+                   recs |-> [j \in 1..Len(ax.bundles[i].recs) |-> AXRec(ax.bundles[i].recs[j], sc)]]]]
+NoObs == [recs |-> <<>>, bundles |-> <<>>]
 =============================================================================
